@@ -255,7 +255,10 @@ class Run:
             return
         ran.add((unit.name, inst[0]))
         self._fallback_done = ran
-        check = next((c for c in unit.checks if c.engine != 'N'), unit.checks[0])
+        import copy
+        check = copy.copy(next((c for c in unit.checks if c.engine != 'N'), unit.checks[0]))
+        check.replay = check.replay or check.name
+        check.name = 'all'                          # replay drivers that select a scenario by check name run every scenario
         try:
             rep, txt = self.native_replay(unit, inst, check, {}, 'extraction-break')
         except Undecided:
@@ -341,7 +344,7 @@ class Run:
         for (u, inst, c, res, err) in core.pool_map(self.run_check, jobs):
             if err:
                 self.undecided.append('%s/%s/%s: %s' % (u.name, inst[0], c.name, err))
-                if 'goto-cc failed' in err or 'does not compile' in err or 'must-fire rule' in err:
+                if 'goto-cc failed' in err or 'does not compile' in err or 'must-fire rule' in err or 'time-out' in err:
                     self.extraction_break_fallback(u, inst, err)
                 continue
             self.results.append((u, inst, c, res, None))
